@@ -208,7 +208,10 @@ func c01Check(c c01Case, r *ev.Recorder) *Failure {
 		// that no sentence starts with. Error positions are compared for reduced inputs only.
 		reduced := allReachableProductive(cfg, inp.NT, rec.Productive)
 		if !reduced {
-			r.Class("input-with-unproductive-nonterminal(error position not compared)")
+			// Such inputs are outside the domain altogether: with an unproductive nonterminal
+			// behind a nullable prefix (A: B A b; B: ;) every LR parser reduces forever.
+			r.Excluded("input-with-unproductive-reachable-nonterminal")
+			continue
 		}
 		strs, _ := tokenStrings(cfg, inp.NT, c.Seed, 1500)
 		strs = append(strs, c.Extra...)
